@@ -41,7 +41,8 @@ def gen_case(rng, k):
     """One case: a survey, a cube response, transforms with a smoother."""
     strand = rng.random() < 0.2
     cat_date = rng.random() < 0.85
-    n_periods = rng.choice([1, 2, 3, 3, 4, 5, 6, 8])
+    # (long series and wide windows as well, after seeded change C20-10: the window was clamped to 12)
+    n_periods = rng.choice([1, 2, 3, 3, 4, 5, 6, 8, 12, 14, 16])
     colv = gen.make_cat(rng, "wave", n_valid=n_periods, date=cat_date,
                         n_missing=rng.choice([0, 0, 1]), numeric=rng.choice([None, "partial"]))
     if strand:
@@ -89,7 +90,8 @@ def gen_case(rng, k):
         raw = None
         sm["window"] = None
     else:
-        raw = rng.choice([-1, 0, 1, 2, 2, 2, 3, 3, 3, 4, 5, n_periods, n_periods + 1, 10])
+        raw = rng.choice([-1, 0, 1, 2, 2, 2, 3, 3, 3, 4, 5, n_periods, n_periods + 1, 10, 12, 13, 15,
+                          max(2, n_periods - 1)])
         sm["window"] = raw
     if rng.random() < 0.1:
         del sm["function"]
